@@ -1159,7 +1159,21 @@ func runHistory(c *vh.Ctx, r *vh.Rand, reqs []*areq, h int) {
 		return
 	}
 	if plain.merge != "" {
-		c.Fail(mergeKey(us), "acknowledged rows are lost at startup recovery: the flush of the replayed rows fails ("+plain.merge+
+		stored, total := 0, 0
+		pc := countsOf(plain.rows)
+		for _, u := range us {
+			for _, rid := range u.rids {
+				total++
+				if pc[rid] > 0 {
+					stored++
+				}
+			}
+		}
+		if stored == total {
+			c.Tag("merge-conflict-but-all-rows-stored")
+			return
+		}
+		c.Fail(mergeKey(us), fmt.Sprintf("%d of %d acknowledged rows are lost at startup recovery: the flush of the replayed rows fails (", total-stored, total)+plain.merge+
 			"). The row callback replays each row as a one-row batch; a NULL cell of a column whose name starts with '_' becomes a one-row all-NULL string column, getColumnSignature skips '_' columns, so the next row's typed column of that name shares the buffer; mergeBatches refuses the type conflict, the flush fails, the buffer is dropped and the WAL file is already deleted", reqsOf(us)+" ;; "+describe(us))
 		c.Tag("mon:merge-conflict-after-replay")
 		return
